@@ -133,7 +133,9 @@ RLExpect(c) ==
 (* verdicts for run-length outcomes (extends Judge for the "rl" tags)      *)
 (***************************************************************************)
 RLValsEq(dtE, qE, dtO, qO) == Len(qE) = Len(qO) /\ \A i \in DOMAIN qE :
-   IF IsFlt(dtE) = IsFlt(dtO) THEN qE[i] = qO[i] ELSE (IF IsFlt(dtE) THEN qE[i] ELSE <<qE[i], 1>>) = (IF IsFlt(dtO) THEN qO[i] ELSE <<qO[i], 1>>)
+   LET e == IF IsFlt(dtE) = IsFlt(dtO) \/ IsFlt(dtE) THEN qE[i] ELSE <<qE[i], 1>>
+       o == IF IsFlt(dtE) = IsFlt(dtO) \/ IsFlt(dtO) THEN qO[i] ELSE <<qO[i], 1>>
+   IN e = o \/ (e = <<0, 1>> /\ o = <<0, -1>>)               \* an arithmetic zero of either sign (see Judge!NumEq)
 JudgeRL(exp, out, strict) ==      \* exp = <<"rl", dt, dense, needNoAdj>>, out = <<"rl", dt, dense, events, values>>
   IF out[1] # "rl" THEN "kind"
   ELSE IF strict /\ exp[2] # out[2] THEN "dtype"
